@@ -146,6 +146,11 @@ fn main() {
                 "vars": vars, "ff_bytes": sim_ir.ff_values.len(), "comb_bytes": sim_ir.comb_values.len(),
                 "children": sim_ir.module_variables.children.len(),
                 "comb_passes": sim_ir.required_comb_passes,
+                // statements of the comb list that are NOT JIT code (executed by the interpreter between chunks)
+                "comb_interpreted": sim_ir.comb_statements.iter().filter(|s| !matches!(s,
+                    veryl_simulator::ir::Statement::Compiled(_) | veryl_simulator::ir::Statement::CompiledBatch(_))).count(),
+                "comb_compiled": sim_ir.comb_statements.iter().filter(|s| matches!(s,
+                    veryl_simulator::ir::Statement::Compiled(_) | veryl_simulator::ir::Statement::CompiledBatch(_))).count(),
             }));
         }
         "ir" => {
